@@ -154,6 +154,14 @@ b("B41", "controller/src/controller.rs", "\t\tmatches!(val[\"method\"].as_str(),
 
 b("B42", UPD, "\tif query_args.is_some() && tx_id.is_none() && tx_slate_id.is_none() {\n\t\ttxs = apply_advanced_tx_list_filtering(wallet, &query_args.unwrap(), parent_key_id)", "\tif let (Some(q), None, None) = (query_args.as_ref(), tx_id, tx_slate_id) {\n\t\ttxs = apply_advanced_tx_list_filtering(wallet, q, parent_key_id)", "dispatch test written as a tuple pattern")
 
+SCAN = "libwallet/src/internal/scan.rs"
+b("B43", OWNER, "\t\tif tx.amount_debited != 0 && tx.amount_credited != 0 {\n\t\t\t// confirmed through", "\t\tif tx.amount_credited != 0 {\n\t\t\t// confirmed through", "kernel step: the pending-output test applied to every entry with a credit (the output test alone makes the skip safe)")
+b("B44", SCAN, "\t\tif deffo.n_child > *max_child_index {\n\t\t\t*max_child_index = deffo.n_child;\n\t\t}\n", "\t\t*max_child_index = (*max_child_index).max(deffo.n_child);\n", "running maximum written with max()")
+b("B45", SCAN, "\tif output.n_child >= max_child_index {", "\tif max_child_index <= output.n_child {", "running-maximum test mirrored")
+b("B46", OWNER, "\t\t\tlet change_pending = w.iter().any(|o| {\n\t\t\t\to.root_key_id == parent_key_id\n\t\t\t\t\t&& o.tx_log_entry == Some(id)\n\t\t\t\t\t&& o.status == OutputStatus::Unconfirmed\n\t\t\t});\n\t\t\tif change_pending {\n\t\t\t\tcontinue;\n\t\t\t}\n", "\t\t\tif w.iter().any(|o| {\n\t\t\t\to.status == OutputStatus::Unconfirmed\n\t\t\t\t\t&& o.tx_log_entry == Some(id)\n\t\t\t\t\t&& o.root_key_id == parent_key_id\n\t\t\t}) {\n\t\t\t\tcontinue;\n\t\t\t}\n", "pending-output test inlined, conjuncts reordered")
+b("B47", TX, "\t\tlet parent_key_id = context.parent_key_id.clone();\n\t\tlet excess = slate.calc_excess(keychain.secp())?;", "\t\tlet parent_key_id = parent_key.clone();\n\t\tlet excess = slate.calc_excess(keychain.secp())?;", "proof key account taken from the log entry instead of the context (same account)")
+b("B48", FOREIGN, "\t\ttx::update_stored_tx(&mut *w, keychain_mask, &context, &sl, false)?;\n\t\t{\n\t\t\tlet mut batch = w.batch(keychain_mask)?;\n\t\t\tbatch.delete_private_context(sl.id.as_bytes())?;\n\t\t\tbatch.commit()?;\n\t\t}\n", "\t\ttx::update_stored_tx(&mut *w, keychain_mask, &context, &sl, false)?;\n\t\tdebug!(\"finalize_tx: stored, dropping the context of {}\", sl.id);\n\t\tlet mut batch = w.batch(keychain_mask)?;\n\t\tbatch.delete_private_context(sl.id.as_bytes())?;\n\t\tbatch.commit()?;\n", "context deletion without its own block, log line in between")
+
 
 def _apply(mu, repo_copy):
     p = os.path.join(repo_copy, mu["file"])
